@@ -154,6 +154,27 @@ _ADDED = {
 for _pid, _txt in _ADDED.items():
     PROPS[_pid]["explanation"] = PROPS[_pid]["explanation"] + _txt
 
+_ADDED2 = {
+    "C02": " R-PARENT: every insertion of a directory entry is dominated by a test that the parent is not a stream.",
+    "C03": " R-PARENT (no child below a stream). R-INITKIND: the directory chain is always handled with SectorInit::Dir, the MiniFAT chain with SectorInit::Fat.",
+    "C05": " R-CHAINPOS: every position stored by Chain/MiniChain/Sector::seek is dominated by position <= len(self). Function-wide audited sink entries cover only the sink kinds they were written for.",
+    "C06": " R-CUTOFF: every test against MINI_STREAM_CUTOFF has the same sense.",
+    "C07": " R-LINKKEEP: links are conserved by tree surgery (an overwritten link was tested empty, is the released node, or was handed on). R-MARK / R-FRESHID: a new FAT/DIFAT sector is entered in the FAT under its own id before another id is taken (a sector handed to two owners lets one handle write into another stream).",
+    "C08": " R-SHORT: the zero initialiser uses exact-transfer forms. R-CEIL: no sector count is floor(x/y)+1 without a remainder test (a surplus sector keeps its old bytes across shrink and grow).",
+    "C09": " R-LINKKEEP (removal keeps every other name in the tree). R-FOLD: the folding function never returns its argument unfolded. R-NARROW(names): no truncating cast on name code units.",
+    "C10": " R-DEEPREFUSAL: a NotFound/AlreadyExists raised below the API layer is not preceded by an effect anywhere on the call chain down to it.",
+    "C11": " R-SLOTRESET: a slot taken from allocate_dir_entry is overwritten whole before it is linked. R-CHAINPOS as for C05.",
+    "C12": " R-SEEKFIRST: a Sector is only built after a successful backend seek (no cached-position shortcut that a failed seek could leave stale).",
+    "C13": " R-SETTER rows: with_dir_entry_mut rewrites the whole entry on every Ok path (a retried write-back repairs an entry whose first write failed).",
+    "C14": " R-LOCK.5: the shared lock is never probed with try_read/try_write/is_poisoned.",
+    "C15": " R-KILLREAD: no chain link is read from a cell after it was overwritten with END_OF_CHAIN/FREE. R-RAWFIELD: the parsers return the chain starts the file records (a start forgotten at open leaks the chain).",
+    "C16": " R-SIBFLAG: the red-parent flag is pushed identically for both siblings. R-RAWFIELD: parsed fields are replaced only in the listed normalisations.",
+    "C17": " R-GETTER: Entry::new copies field for field and every accessor depends on exactly its own field.",
+    "C18": " R-TRUNC: a file opened with create(true) for the creation code is opened with truncate(true).",
+}
+for _pid, _txt in _ADDED2.items():
+    PROPS[_pid]["explanation"] = PROPS[_pid]["explanation"] + _txt
+
 
 def explain(path):
     with open(path) as f:
